@@ -470,11 +470,11 @@ example : runL {} reuseRun = none := by decide
 example : (runL {} [.accept, .wait 0, .announce 0, .drop 0, .release 0, .accept, .discCb 0, .finish 0, .wait 1, .announce 1]).map (·.log) =
     some [.new 0, .disc 0, .new 1] := by decide
 
-/-- C11 / C13 (after /repo 9ab511e): whatever `Write` accepts reaches the connection the application currently knows as the
+/-- C11 / C13, about a CANDIDATE repair that is not in the code (`writeTarget true`; tried and withdrawn, DESIGN.md 13.7): whatever such a `Write` accepts would reach the connection the application currently knows as the
     id's session, or a connection that is registered while *no* session of the id is open for the application (all earlier
     ones have been reported as ended) — never a connection `k` while the callbacks still say that another connection `j`
     is the live one. In every interleaving. -/
-theorem write_reaches_no_later_session (ls : List Label) (s : St) (h : runL {} ls = some s) (k : Nat)
+theorem candidate_write_reaches_no_later_session (ls : List Label) (s : St) (h : runL {} ls = some s) (k : Nat)
     (hw : writeTarget true s = some k) : openOf s.log = some (some k) ∨ openOf s.log = some none := by
   have hI := inv_run ls s h
   have hcl : s.closing = none := by
@@ -513,9 +513,9 @@ example : (runL {} [.accept, .wait 0, .announce 0, .drop 0, .release 0, .accept,
     yet, connection 1 is registered -/
 def leakRun : List Label := [.accept, .wait 0, .announce 0, .drop 0, .release 0, .accept]
 
-/-- before /repo 9ab511e (`Write` consults the table only): a write of the application, for which connection 0 is still the
-    session of the id, reaches connection 1; with the repair it fails -/
-theorem old_write_reaches_next_connection :
+/-- the code as it is (`Write` consults the table only; open finding `leak/old-call-on-new-connection`): a write of the
+    application, for which connection 0 is still the session of the id, reaches connection 1; with the candidate repair it would fail -/
+theorem write_reaches_next_connection :
     (runL {} leakRun).map (fun s => (writeTarget false s, openOf s.log)) = some (some 1, some (some 0)) ∧
     (runL {} leakRun).map (writeTarget true) = some none := by decide
 
